@@ -45,8 +45,7 @@ def cmdPatCanon (comp value proto : String) (args : List String) : String :=
   match comp with
   | "protocol" =>
     -- the slow route parses value ++ "://dummy.test": probe the host of that parse for unanswered IDNA questions
-    let input := if v.getLast? == some 0x3A then v.dropLast else v
-    let probe := match AdaVerif.Model.ParseAgg.parseNoBaseA idna (input ++ AdaVerif.Model.PatternCanon.dummySuffix) with
+    let probe := match AdaVerif.Model.ParseAgg.parseNoBaseA idna (v ++ AdaVerif.Model.PatternCanon.dummySuffix) with
       | some a => findMarker idna (AdaVerif.Model.Agg.getHostname a)
       | none => none
     (match probe with
